@@ -235,14 +235,24 @@ func (fv *FV) typeInv(term string, t types.Type, depth int) string {
 		}
 		ei := fv.typeInv(fmt.Sprintf("(select (sq.arr %s) i!q)", term), tt.Elem(), depth+1)
 		if ei != "true" {
-			parts = append(parts, fmt.Sprintf("(forall ((i!q Int)) (! %s :pattern ((select (sq.arr %s) i!q))))", ei, term))
+			if strings.Contains(term, "(ite ") {
+				// no `ite` inside patterns (z3 rejects them): let the solver choose
+				parts = append(parts, fmt.Sprintf("(forall ((i!q Int)) %s)", ei))
+			} else {
+				parts = append(parts, fmt.Sprintf("(forall ((i!q Int)) (! %s :pattern ((select (sq.arr %s) i!q))))", ei, term))
+			}
 		}
 		return and(parts...)
 	case *types.Array:
 		parts := []string{fmt.Sprintf("(= (sq.len %s) %d)", term, tt.Len())}
 		ei := fv.typeInv(fmt.Sprintf("(select (sq.arr %s) i!q)", term), tt.Elem(), depth+1)
 		if ei != "true" {
-			parts = append(parts, fmt.Sprintf("(forall ((i!q Int)) (! %s :pattern ((select (sq.arr %s) i!q))))", ei, term))
+			if strings.Contains(term, "(ite ") {
+				// no `ite` inside patterns (z3 rejects them): let the solver choose
+				parts = append(parts, fmt.Sprintf("(forall ((i!q Int)) %s)", ei))
+			} else {
+				parts = append(parts, fmt.Sprintf("(forall ((i!q Int)) (! %s :pattern ((select (sq.arr %s) i!q))))", ei, term))
+			}
 		}
 		return and(parts...)
 	case *types.Map:
